@@ -387,6 +387,7 @@ func c20(c *core.Check) {
 	}
 	c.Min("action-error", 5)
 	c20nestedTemplate(c)
+	c20rememberedDefaults(c)
 	// the reject paths named by the statement: use_package (len(parts)<2), naming_style (nil style), template (UseTemplate error)
 	c20rejects(c, info, actions)
 
